@@ -108,6 +108,8 @@ func exprFieldLoads(v ssa.Value, depth int, out *[]fieldLoad, seen map[ssa.Value
 		exprFieldLoads(x.X, depth+1, out, seen)
 	case *ssa.ChangeType:
 		exprFieldLoads(x.X, depth+1, out, seen)
+	case *ssa.MakeInterface:
+		exprFieldLoads(x.X, depth+1, out, seen)
 	case *ssa.Call:
 		for _, a := range x.Call.Args {
 			exprFieldLoads(a, depth+1, out, seen)
